@@ -4,6 +4,8 @@
 #include <cppcms/util.h>
 #include <cppcms/base64.h>
 #include <cppcms/filters.h>
+#include <cppcms/form.h>
+#include <locale>
 #include <streambuf>
 #include <memory>
 
@@ -79,6 +81,28 @@ static std::string run(std::vector<std::string> const &w)
 		vh::exact_buf buf(cap);
 		unsigned char *e=b64url::decode(xa.ubegin(),xa.uend(),buf.ubegin());
 		return vh::hex(buf.p,e-buf.ubegin());
+	}
+	// form <widget> <list 0..4> <xhtml 0/1> <valid 0/1> <message> <help> <error> <value>
+	if(w.size()==9 && w[0]=="form") {
+		std::string M,H,E,V;
+		if(!vh::unhex(w[5],M)||!vh::unhex(w[6],H)||!vh::unhex(w[7],E)||!vh::unhex(w[8],V)) return "bad-op";
+		static form_flags::html_list_type const lists[]={form_flags::as_p,form_flags::as_table,form_flags::as_ul,form_flags::as_dl,form_flags::as_space};
+		int l=atoi(w[2].c_str())%5; bool xhtml=w[3]=="1"; bool valid=w[4]=="1";
+		std::ostringstream ss; ss.imbue(std::locale::classic());
+		form_context ctx(ss,xhtml?form_flags::as_xhtml:form_flags::as_html,lists[l]);
+		#define COMMON(x) x.name("n"); x.id("i"); x.message(M); x.help(H); x.error_message(E); x.valid(valid);
+		if(w[1]=="text") { widgets::text t; COMMON(t); t.value(V); t.render(ctx); }
+		else if(w[1]=="textarea") { widgets::textarea t; COMMON(t); t.value(V); t.render(ctx); }
+		else if(w[1]=="password") { widgets::password t; COMMON(t); t.value(V); t.render(ctx); }
+		else if(w[1]=="hidden") { widgets::hidden t; COMMON(t); t.value(V); t.render(ctx); }
+		else if(w[1]=="checkbox") { widgets::checkbox t; COMMON(t); t.identification(V); t.render(ctx); }
+		else if(w[1]=="select") { widgets::select t; COMMON(t); t.add(V,V); t.add("plain","p"); t.render(ctx); }
+		else if(w[1]=="radio") { widgets::radio t; COMMON(t); t.add(V,V); t.add("plain","p"); t.render(ctx); }
+		else if(w[1]=="multi") { widgets::select_multiple t; COMMON(t); t.add(V,V,true); t.add("plain","p"); t.render(ctx); }
+		else if(w[1]=="submit") { widgets::submit t; COMMON(t); t.value(V); t.render(ctx); }
+		else return "bad-op";
+		#undef COMMON
+		return vh::hex(ss.str());
 	}
 	if(w.size()==2 && w[0]=="encsize") return std::to_string(b64url::encoded_size(strtoull(w[1].c_str(),0,10)));
 	if(w.size()==2 && w[0]=="decsize") return std::to_string(b64url::decoded_size(strtoull(w[1].c_str(),0,10)));
